@@ -221,11 +221,11 @@ def steps_for(case, pick):
         op = {"op": "reduce", "src": "a", "reducer": a["reducer"], "axis": a["axis"], "mask": a["mask"],
               "keepdims": a["keepdims"]}
     elif act == "concat":
-        b2 = {"op": "build", "dst": "b", "layout": instantiate(case["aux"], pick), "want": ["type", "valid", "digest"]}
+        b2 = {"op": "build", "dst": "b", "layout": instantiate(case["aux"], pick), "want": ["json", "type", "valid", "digest"]}
         op = {"op": "concat0", "src": "b", "others": ["a"], "dst": "r", "want": ["json", "type", "valid"]}
         return [build, b2, op, {"op": "digest", "src": "a"}]
     elif act == "setfield":
-        b2 = {"op": "build", "dst": "b", "layout": instantiate(case["aux"], pick), "want": ["type", "valid", "digest"]}
+        b2 = {"op": "build", "dst": "b", "layout": instantiate(case["aux"], pick), "want": ["json", "type", "valid", "digest"]}
         op = {"op": "setitem_field", "src": "b", "where": a["key"], "what": "a", "dst": "r", "want": ["json", "type", "valid"]}
         return [build, b2, op, {"op": "digest", "src": "a"}]
     elif act == "samevalue":
@@ -396,7 +396,8 @@ def run_worker(worker, wcases, timeout=120, env=None):
 
 
 def _chunk_task(args):
-    worker, src, seed, env, translate, judge_fn = args
+    worker, src, seed, env, translate, judge_fn = args[:6]
+    record = args[6] if len(args) > 6 else None
     import importlib
     mod = importlib.import_module(translate[0])
     tr = getattr(mod, translate[1])
@@ -430,6 +431,17 @@ def _chunk_task(args):
             stats["ok"] += 1
             if case.get("exp", {}).get("ok") == 0:
                 stats["err_expected"] += 1
+    if record:
+        rf = getattr(importlib.import_module(record[0]), record[1])
+        first = chunk[0][0] if chunk else 0
+        with open("%s.obs.%09d" % (record[2], first), "w") as f:
+            for idx, case in chunk:
+                if idx in crashed:
+                    rec = rf(case, None, "CRASH")
+                else:
+                    rec = rf(case, answers.get(idx), None)
+                if rec is not None:
+                    f.write(json.dumps(rec) + "\n")
     return stats, fails
 
 
@@ -457,7 +469,7 @@ def _file_chunks(path, chunk, max_cases=None):
 
 def replay_cases(worker, cases, seed=0, jobs=16, chunk=1500, env=None,
                  translate=("replay", "steps_for"), judge_fn=("replay", "judge"), max_fail_keep=100000,
-                 max_cases=None):
+                 max_cases=None, record=None):
     """cases: path of an ndjson file (preferred: parsed in the worker processes) or an iterable of case dicts.
     Returns (stats, failures)."""
     if isinstance(cases, str):
@@ -479,7 +491,7 @@ def replay_cases(worker, cases, seed=0, jobs=16, chunk=1500, env=None,
     nfail = 0
     sys.path.insert(0, os.path.dirname(os.path.abspath(__file__)))
     with ProcessPoolExecutor(jobs) as ex:
-        for stats, fl in ex.map(_chunk_task, [(worker, c, seed, env, translate, judge_fn) for c in chunks]):
+        for stats, fl in ex.map(_chunk_task, [(worker, c, seed, env, translate, judge_fn, record) for c in chunks]):
             for k in total:
                 total[k] += stats.get(k, 0)
             nfail += len(fl)
@@ -767,3 +779,37 @@ def judge_json(case, res):
         if not values_equal(unmark(back), got):
             return "to_json output %s does not parse back to the array's value" % w["text"][:200]
     return None
+
+
+# ------------------------------------------------------------------ C02: outcomes must depend on the logical value only
+def judge_none(case, res):
+    return None
+
+
+def record_c02(case, res, crash):
+    """(key, outcome): key = the library's own to_list/type of the input + the operation; outcome = normalised result"""
+    if crash:
+        return {"key": None, "out": "CRASH", "case": case}
+    if not res or res[0].get("ok") != 1:
+        return None
+    b = res[0]
+    act = case["act"]
+    opi = 2 if act in ("concat", "setfield") else 1
+    key = [act, json.dumps(case.get("args"), sort_keys=True), b.get("type"), b.get("json")]
+    if act in ("concat", "setfield"):
+        if res[1].get("ok") != 1:
+            return None
+        key += [res[1].get("type"), res[1].get("json")]
+    if len(res) <= opi:
+        return None
+    r = res[opi]
+    if r.get("ok") == -1:
+        return None
+    if r.get("ok") == 1:
+        try:
+            out = ["ok", json.loads(r["json"])] if "json" in r else ["unreadable", r.get("json_exc")]
+        except Exception:
+            out = ["unparseable", r.get("json")]
+    else:
+        out = ["error"]
+    return {"key": key, "out": out, "from": case["from"], "aux": case.get("aux"), "expok": case.get("exp", {}).get("ok")}
